@@ -185,12 +185,18 @@ public:
     {
     }
 
+    // An empty string creates no text node (XSLT 1.0, section 7.6.1), so
+    // nothing is sent for it: any characters event, even an empty one,
+    // closes a pending start tag.
     void
     characters(
                 const XMLCh* const  chars,
                 const size_type     length)
     {
-        m_executionContext.characters(chars, 0, length);
+        if (length != 0)
+        {
+            m_executionContext.characters(chars, 0, length);
+        }
     }
 
     void
@@ -198,7 +204,10 @@ public:
             const XMLCh* const  chars,
             const size_type     length)
     {
-        m_executionContext.charactersRaw(chars, 0, length);
+        if (length != 0)
+        {
+            m_executionContext.charactersRaw(chars, 0, length);
+        }
     }
 
     void
@@ -258,14 +267,17 @@ ElemValueOf::startElement(StylesheetExecutionContext&       executionContext) co
 
     if (m_selectPattern == 0)
     {
-        if (disableOutputEscaping() == false)
-        {
-            executionContext.characters(*sourceNode);
-        }
-        else
-        {
-            executionContext.charactersRaw(*sourceNode);
-        }
+        // Send the string-value of the current node piece by piece,
+        // like the value of a select expression below, so that an
+        // empty string-value sends nothing.
+        FormatterListenerAdapater   theAdapter(executionContext);
+
+        DOMServices::getNodeData(
+            *sourceNode,
+            executionContext,
+            theAdapter,
+            disableOutputEscaping() == false ?
+                &FormatterListener::characters : &FormatterListener::charactersRaw);
 
         if (0 != executionContext.getTraceListeners())
         {
@@ -313,14 +325,17 @@ ElemValueOf::execute(StylesheetExecutionContext&    executionContext) const
 
     if (m_selectPattern == 0)
     {
-        if (disableOutputEscaping() == false)
-        {
-            executionContext.characters(*sourceNode);
-        }
-        else
-        {
-            executionContext.charactersRaw(*sourceNode);
-        }
+        // Send the string-value of the current node piece by piece,
+        // like the value of a select expression below, so that an
+        // empty string-value sends nothing.
+        FormatterListenerAdapater   theAdapter(executionContext);
+
+        DOMServices::getNodeData(
+            *sourceNode,
+            executionContext,
+            theAdapter,
+            disableOutputEscaping() == false ?
+                &FormatterListener::characters : &FormatterListener::charactersRaw);
 
         if (0 != executionContext.getTraceListeners())
         {
